@@ -43,6 +43,7 @@ type Env struct {
 	site  *CallSite // call site whose arguments are bound to arg0, arg1, ... (site assertions)
 	// freshFrom: in an `after call ... assume` clause fresh(x) means "allocated by that call"
 	freshFrom string
+	wantAddr  bool // &name in a modifies clause: the variable's cell, not its value
 	x     *Exec
 	names map[string]SV
 	lets  map[string]ast.Expr
@@ -219,6 +220,9 @@ func (env *Env) lookupLocal(name string) (SV, bool) {
 		v = fr.vals[best.val]
 	}
 	if best.isAddr {
+		if env.wantAddr {
+			return svOfVal(v, best.val.Type()), true
+		}
 		pt := deref(best.val.Type())
 		return svOfVal(env.x.vc.load(env.st, env.x.vc.ls.of(pt), v[0].T, v[1].T), pt), true
 	}
@@ -292,6 +296,15 @@ func (env *Env) eval(e ast.Expr) SV {
 			return SV{K: SGo, V: Val{ic(itoa(int64(x.strConst(s))))}, Ty: types.Typ[types.String]}
 		}
 	case *ast.UnaryExpr:
+		if id, ok := n.X.(*ast.Ident); ok && n.Op == token.AND {
+			// &name: pointer to an address-taken local variable
+			e2 := *env
+			e2.wantAddr = true
+			if v, ok := e2.lookupLocal(id.Name); ok {
+				return v
+			}
+			sfail("not an address-taken local: %s", id.Name)
+		}
 		v := env.eval(n.X)
 		switch n.Op {
 		case token.NOT:
@@ -1059,6 +1072,19 @@ func (x *Exec) evalLoc(env *Env, e ast.Expr) string {
 		ref, off, ft := env.fieldAddr(base, n.Sel.Name)
 		sz := x.vc.ls.size(ft)
 		return and(eq("r", ref), sx("<=", off, "o"), sx("<", "o", add(off, itoa(int64(sz)))))
+	case *ast.UnaryExpr:
+		// &name: the cells of an address-taken local variable
+		if id, ok := n.X.(*ast.Ident); ok && n.Op == token.AND {
+			e2 := *env
+			e2.wantAddr = true
+			if v, ok := e2.lookupLocal(id.Name); ok {
+				if _, isPtr := v.Ty.Underlying().(*types.Pointer); isPtr {
+					sz := x.vc.ls.size(deref(v.Ty))
+					return and(eq("r", v.V[0].T), sx("<=", v.V[1].T, "o"), sx("<", "o", add(v.V[1].T, itoa(int64(sz)))))
+				}
+			}
+			sfail("not an address-taken local: %s", id.Name)
+		}
 	case *ast.StarExpr:
 		v := env.eval(n.X)
 		sz := x.vc.ls.size(deref(v.Ty))
